@@ -19,12 +19,12 @@ CLAIMS = {
          "link() is reachable only after the copy into the temp file succeeded and read the body to its end through EOF-transparent wrappers; HashReader verifies every hash type it accepts, fails on mismatch, and returns the inner EOF only past the comparison; Content-MD5 and X-Amz-Content-Sha256 assertions are installed on the immediate and on the deferred branch; the copied byte count is compared with the declared length before publication; every checksum header is parsed, forwarded and wrapped with its own hash type.",
          "That the hash functions compute the right digests and the chunk-signature arithmetic are not decided; azure/s3proxy integrity handling is the SDK's.",
          "DESIGN.md §4 C06"),
- "C07": ("who-may-call / argument-origin rule over every Walk call site + cut rule inside the walk callbacks + marker-origin rule",
-         "Every listing walk (posix and scoutfs, objects and versions) prunes the temp directory under which temp files and multipart uploads live, the two backends agree on its name, and the walk callback returns fs.SkipDir for pruned names before any object is produced; ListObjectsV2 resumes after the later of start-after and the continuation token.",
+ "C07": ("who-may-call / argument-origin rule over every Walk call site + cut rule inside the walk callbacks + marker-origin rule + edge rule on the marker latch + operand rule on marker comparisons in the directory branch",
+         "Every listing walk (posix and scoutfs, objects and versions) prunes the temp directory under which temp files and multipart uploads live, the two backends agree on its name, and the walk callback returns fs.SkipDir for pruned names before any object is produced; ListObjectsV2 resumes after the later of start-after and the continuation token; the walk stops comparing with the marker only where a path equals it (WalkDir order is not byte order), and never compares a bare directory name with the marker.",
          "Completeness, ordering, grouping by delimiter and loss-free pagination quantify over key sets and markers (walk order vs key order is data-dependent) and are NOT decided; only these clauses are.",
          "DESIGN.md §4 C07"),
- "C08": ("operand-origin identification of the three completion checks + cut-reachability to the assembly + argument-origin rules for upload-directory derivation, cleanup scope and part selection",
-         "All multipart siblings locate an upload under metaTmpMultipartDir/sha256(unmodified key)/uploadId; completion compares listed with stored part ETags, requires increasing part numbers and the minimum part size, each check has an edge that cannot reach the assembly; the object's ETag is GetMultipartMD5 of the listed parts with the part count as suffix; recursive cleanup names the upload-id directory, abort removes only a found upload; the parts copied are chosen by listed part number.",
+ "C08": ("operand-origin identification of the three completion checks + cut-reachability to the assembly + argument-origin rules for upload-directory derivation, cleanup scope and part selection + zone abstract interpretation (difference bounds, go/ssa) of ParseCopySourceRange and of UploadPartCopy's use of its results",
+         "All multipart siblings locate an upload under metaTmpMultipartDir/sha256(unmodified key)/uploadId; completion compares listed with stored part ETags, requires increasing part numbers and the minimum part size, each check has an edge that cannot reach the assembly; the object's ETag is GetMultipartMD5 of the listed parts with the part count as suffix; recursive cleanup names the upload-id directory, abort removes only a found upload; the parts copied are chosen by listed part number; only directory entries are listed as uploads; ParseCopySourceRange returns 0<=start, start+length<=size, length>=1 on every path without int64 wrap-around, and UploadPartCopy reads exactly (start,length) and preallocates exactly length.",
          "Concatenation content, behaviour over interleaved programs of uploads, and weakened (rather than removed) bounds are not decided.",
          "DESIGN.md §4 C08"),
  "C09": ("existence-and-order rules (may-precede) for version preservation + region reachability in DeleteObject + per-iteration must-pass rule in the version-restore loop + condition-origin rule",
@@ -35,8 +35,8 @@ CLAIMS = {
          "Same publication rules as C05 (attributes on the unpublished inode, no unlink before link: 3 known findings, no attribute writes after publication: 4 known findings, private temp files) plus: the backends never create/write object files in place, every successful openTmpFile is followed by a deferred cleanup, and CompleteMultipartUpload removes parts/upload directory only after link() succeeded.",
          "The enumeration of kill points is an execution notion and is NOT decided; fsync/durability ordering is not examined.",
          "DESIGN.md §4 C11"),
- "C12": ("reader typestate on go/ssa: literal-EOF guard rules, may-be-EOF return analysis against io.EOF tests, switch/constant table agreement for reader selection, field-store aliasing rule",
-         "The signed reader reports end of stream only after the final chunk signature and, with a trailer, the trailing checksum and trailer signature verified; the unsigned reader only after a validated trailer; an early inner EOF is never passed on as a clean EOF; literal EOF only after the inner reader was drained; NewChunkReader covers every streaming payload type and refuses others, negative chunk sizes are refused; reader state never aliases the caller's buffer; empty chunk signatures are refused and mismatches fail.",
+ "C12": ("reader typestate on go/ssa: literal-EOF guard rules, may-be-EOF return analysis against io.EOF tests, switch/constant table agreement for reader selection, field-store aliasing rule, stash typestate (copy-then-overwrite), bufio slice lifetime rule",
+         "The signed reader reports end of stream only after the final chunk signature and, with a trailer, the trailing checksum and trailer signature verified; the unsigned reader only after a validated trailer; an early inner EOF is never passed on as a clean EOF; literal EOF only after the inner reader was drained; NewChunkReader covers every streaming payload type and refuses others, negative chunk sizes are refused; reader state never aliases the caller's buffer; empty chunk signatures are refused and mismatches fail; once the stash was copied to the caller no successful return leaves it in place; no slice lent by bufio.Reader is used after the next read.",
          "Equality of decoded bytes for every fragmentation (the in-place buffer arithmetic) is NOT decided; known baseline weakness: chunk headers split across reads after the first header can be falsely rejected (recorded in DESIGN.md).",
          "DESIGN.md §4 C12"),
  "C16": ("cut-reachability (name validation, mkdir success) + attribute-key table agreement per bucket setting + who-may-remove in DeleteBucket + must-pass rule in isBucketEmpty",
@@ -59,13 +59,13 @@ CLAIMS = {
          "Filesystem functions are called only from the frozen owner packages; every client string that controllers/middlewares hand to a backend path slot (bucket, key, versionId, uploadId, copy source, batch keys) originates only from accessors validated by DecodeURL, from the copy-source header validated in ParseCopySource, or from a decoded list validated element-wise; DecodeURL validates the decoded path and id queries, fails closed, and hands the router exactly the validated value; the validators reject '.'/'..'/separators and ParseCopySource returns only substrings of what it validated.",
          "Kernel behaviour on odd names (NUL, length), symlink races and bucketlinks are not decided; the posix backend's own use of its parameters is trusted to stay within the slots listed in T-PATHSLOT; the validator check is a shape/necessary-condition check, not a proof of the predicate.",
          "DESIGN.md §4 C04"),
- "C13": ("value-origin slices on go/ssa (parser results to section reader, Content-Length, Content-Range) + cut-reachability + condition-origin analysis of the 206 decision",
-         "In posix.GetObject the body window, Content-Length and Content-Range all come from one ParseGetObjectRange call applied to the stat size and the request Range, Content-Range only on the isValid edge, the object is opened only after the parser accepted, and a 416 is returned; in GetActions the 206 status depends on the backend result's ContentRange and on no request accessor, and body/length/Content-Range are emitted from the backend result.",
-         "The numeric correctness of ParseGetObjectRange (interval arithmetic, clipping, off-by-one) is value-level and NOT decided; scoutfs reuses posix.GetObject; azure/s3proxy range handling is remote.",
+ "C13": ("value-origin slices on go/ssa (parser results to section reader, Content-Length, Content-Range) + cut-reachability + condition-origin analysis of the 206 decision + zone abstract interpretation (difference-bound matrices with trace partitioning over go/ssa) of the range parser and of posix.GetObject's arithmetic on its results",
+         "In posix.GetObject the body window, Content-Length and Content-Range all come from one ParseGetObjectRange call applied to the stat size and the request Range, Content-Range only on the isValid edge, the object is opened only after the parser accepted, and a 416 is returned; in GetActions the 206 status depends on the backend result's ContentRange and on no request accessor, and body/length/Content-Range are emitted from the backend result. ParseGetObjectRange is proven, on every path with a nil error, to return 0<=start, start+length<=size, length>=1 when valid, with no int64 wrap-around; under that postcondition posix.GetObject's Content-Range numbers satisfy 0<=first<=last<total, first=start, last-first+1=Content-Length, total=the size parsed against, and the section reader window is (start,length) inside the object.",
+         "The header grammar (which Range strings count as malformed/unsupported and fall back to 200) is NOT decided; assumptions of the numeric proof: object size >= 0 and ParseInt of a token that contains no '-' is >= 0 (provenance checked); scoutfs reuses posix.GetObject; azure/s3proxy range handling is remote.",
          "DESIGN.md §4 C13"),
- "C14": ("table agreement over package-level constants and composite literals + cut-reachability/fail-closed rules on the validation chain + evaluation-shape rules on isAllowed/findMatch",
+ "C14": ("table agreement over package-level constants and composite literals + cut-reachability/fail-closed rules on the validation chain + evaluation-shape rules on isAllowed/findMatch + guard rule for prefix matching of action names",
          "Every action constant is grantable by name, the object-action list is a subset and agrees with the operation table, every action the gateway decides with is in the supported list; a policy is stored only after ValidatePolicyDocument succeeded on the same bytes and bucket, the validation chain reaches Effect/Principals/Resources/Action validation and swallows no failure, empty statement lists and action/resource kind mismatches are refused; isAllowed yields true only on a matching Allow and a matching Deny returns false at once; findMatch is the conjunction of the three matchers; VerifyBucketPolicy denies unless isAllowed.",
-         "The glob matcher (Resources.Match), wildcard action matching and JSON shape handling are value-level and not decided; an equivalent rewrite of the deny fold into a different control shape would need the rule to be re-stated.",
+         "The glob matcher (Resources.Match, backtracking) and JSON shape handling are value-level and not decided; action prefix matching is decided only as far as 'only for patterns ending in *'; an equivalent rewrite of the deny fold into a different control shape would need the rule to be re-stated.",
          "DESIGN.md §4 C14"),
  "C17": ("must-hold lock rule (must-pass + no-release-between) on go/ssa + closure-capture origins + cut-reachability write-through order + struct-literal completeness",
          "Every storeIAM call holds the write lock and every store read a read lock; the update closure handed to storeIAM captures only method parameters and parses the data it is given (read-modify-write inside the lock); the store is replaced by temp-file+rename and failures are reported; IAMCache mutates the cache only after the service acknowledged, returns service failures, and cached copies carry all Account fields; accounts.getAccount asks the IAM service for every non-root key and is the only producer of Locals(account).",
